@@ -140,3 +140,31 @@ Example C19_nonvacuous :
   shape (base_productmap f [1; 0] args) = [3; 2] /\
   Qeq_bool (qget (base_productmap f [1; 0] args) [2; 1]) 94 = true.
 Proof. cbv zeta. split; [intros a; split; reflexivity|]. split; vm_compute; reflexivity. Qed.
+
+(* ---- the regenerated dispatchers (Gen/DispatchersGen.v) ARE the model the theorems above are about - *)
+From LCM Require Import Model.VmapSpec Gen.DispatchersGen Proofs.C19_DispGen.
+Theorem C19_code_base_productmap_is_the_model : forall f parameters axes,
+  (forall ax, In ax axes -> index_in parameters ax < length parameters) ->
+  gen_base_productmap f parameters axes = base_productmap f (map (index_in parameters) axes).
+Proof. exact gen_base_productmap_is_model. Qed.
+Print Assumptions C19_code_base_productmap_is_the_model.
+
+Theorem C19_code_vmap_1d_is_the_model : forall f parameters variables args,
+  variables <> [] ->
+  (forall v, In v variables -> index_in parameters v < length parameters) ->
+  (forall p q, In p (map (index_in parameters) variables) -> In q (map (index_in parameters) variables) ->
+     lead (nth p args dflt_arr) = lead (nth q args dflt_arr)) ->
+  gen_vmap_1d f parameters variables args = vmap_1d f (map (index_in parameters) variables) args.
+Proof. exact gen_vmap_1d_is_model. Qed.
+Print Assumptions C19_code_vmap_1d_is_the_model.
+
+(* spacemap as the solver calls it (put_dense_first = False, see C05_driver_maps_sparse_variables_first) *)
+Theorem C19_code_spacemap_sparse_first_is_the_model : forall f parameters dense sparse args,
+  (forall v, In v dense -> index_in parameters v < length parameters) ->
+  (forall v, In v sparse -> index_in parameters v < length parameters) ->
+  (forall p q, In p (map (index_in parameters) sparse) -> In q (map (index_in parameters) sparse) ->
+     lead (nth p args dflt_arr) = lead (nth q args dflt_arr)) ->
+  gen_spacemap f parameters dense sparse false args
+  = spacemap f (map (index_in parameters) dense) (map (index_in parameters) sparse) false args.
+Proof. exact gen_spacemap_sparse_first_is_model. Qed.
+Print Assumptions C19_code_spacemap_sparse_first_is_the_model.
